@@ -68,7 +68,15 @@ def cases(ctx, budget):
         elif r < 0.3: text = "$" + "".join(rand_cp(rng) for _ in range(rng.randint(0, 30)))
         elif r < 0.5: text = "$" + "".join(rng.choice(harness.ALPH) for _ in range(rng.randint(0, 20)))
         elif r < 0.65: text = nest(rng, rng.choice([1, 2, 5, 16, 31, 32]))
-        elif r < 0.7: text = "$[?@.a == %s%s]" % (rng.choice(["", "-"]), rng.choice(["1e400", "1" + "0" * 400, "1e-400", "0." + "0" * 400 + "1", "1e99999", "9" * 30 + "." + "9" * 30, "1E+309"]))
+        elif r < 0.76:
+            # string literals built from well-formed and malformed escape items (see C09), in both positions, often ending right at an escape
+            import checks.c09 as c09
+            q = rng.choice(["'", '"'])
+            body = "".join(c09.item(rng, q) for _ in range(rng.randint(0, 4)))
+            if q in body.replace("\\\\", "").replace("\\" + q, ""): body = body.replace(q, "")
+            text = rng.choice(["$[%s%s%s]", "$[?@==%s%s%s]", "$[?match(@, %s%s%s)]", "$..[%s%s%s, 0]"]) % (q, body, q)
+            if rng.random() < 0.1: text = text[:rng.randint(2, len(text))]
+        elif r < 0.8: text = "$[?@.a == %s%s]" % (rng.choice(["", "-"]), rng.choice(["1e400", "1" + "0" * 400, "1e-400", "0." + "0" * 400 + "1", "1e99999", "9" * 30 + "." + "9" * 30, "1E+309"]))
         else:
             base = gen.render_query(rng, gen.rand_query(rng, names=gen.NAMES if rng.random() < 0.3 else gen.SIMPLE_NAMES, depth=rng.randint(1, 3)))
             text = harness.mutate_text(rng, base) if rng.random() < 0.6 else base
@@ -79,6 +87,9 @@ def cases(ctx, budget):
             except Exception as ex2: ex = ex2
             out = wire.enc_exception(ex)[:2]
             yield Case({"text": text}, harness.compile_req(reg, text), out, None, None, len(text) > 2, "compile-error")
+            if out[0] == 2:
+                yield Case({"text": text, "exception": repr(ex)[:200]}, None, [9], [118, 0], None, True, "compile-error", True,
+                           lambda a, b, e=repr(ex)[:160]: "compile() raised an exception that is not a JSONPathError: " + e)
             continue
         for v in rng.sample(VALUES, 3):
             del rx[:]
@@ -89,14 +100,10 @@ def cases(ctx, budget):
                 except Exception as ex2: ex = ex2
                 out = wire.enc_exception(ex)[:2]
             rows = list(dict.fromkeys(rx))
+            if out[0] == 2:
+                yield Case({"text": text, "value": v}, None, [9], [118, 0], None, True, "evaluated", True,
+                           lambda a, b: "find() raised an exception that is not a JSONPathError")
             yield Case({"text": text, "value": v}, [4, 100] + renc + gen.enc_rxtable(rows) + wire.enc_str(text) + wire.enc_json(v), out, None, None, len(text) > 2, "evaluated")
-
-
-def post(ctx, cases_):
-    bad = [c.desc for c in cases_ if c.impl_out and c.impl_out[0] == 2]
-    if bad:
-        raise AssertionError("an exception that is not a JSONPathError escaped: %r" % (bad[:3],))
-    return {}
 
 
 def replay(ctx, data):
